@@ -314,7 +314,129 @@ def _try_into_array(ex, callee, argv):
     return Agg([Agg([deep(x) for x in sl[ss:ss + sn]], name="array")], 0, "Result::Ok")
 
 
+def _try_branch(ex, callee, argv):
+    """<Result<T,E> as Try>::branch : Ok(v) -> Continue(v) [variant 0], Err(e) -> Break(Err(e)) [variant 1]"""
+    r = argv[0]
+    if not (isinstance(r, Agg) and isinstance(r.variant, int)):
+        raise Unsupported("Try::branch on %r" % (r,))
+    if "Option" in callee.split(" as ")[0]:
+        if r.variant == 1:
+            return Agg([r.f[0]], 0, "ControlFlow::Continue")
+        return Agg([Agg([], 0, "Option")], 1, "ControlFlow::Break")
+    if r.variant == 0:
+        return Agg([r.f[0]], 0, "ControlFlow::Continue")
+    return Agg([Agg([r.f[0]], 1, "Result::Err")], 1, "ControlFlow::Break")
+
+
+def _from_residual(ex, callee, argv):
+    r = argv[0]
+    if isinstance(r, Agg) and r.variant == 1:
+        return Agg([r.f[0]], 1, "Result::Err")
+    if isinstance(r, Agg) and r.variant == 0 and "Option" in callee:
+        return Agg([], 0, "Option")
+    raise Unsupported("from_residual %r" % (r,))
+
+
+def _ref_into_iter(ex, callee, argv):
+    return _slice_iter(ex, callee, argv)
+
+
+def _scalar_ref_cmp(ex, callee, argv):
+    a, b = argv
+    while isinstance(a, Ref):
+        a = ex.load(a)
+    while isinstance(b, Ref):
+        b = ex.load(b)
+    r = ex.binop("Eq", a, b)
+    return ex.unop("Not", r) if callee.endswith("::ne") else r
+
+
+def _arr_slice_cmp(ex, callee, argv):
+    a, b = argv
+    while isinstance(a, Ref) and a.rng is None:
+        a = ex.load(a)
+    fa = a.f if isinstance(a, Agg) else None
+    if isinstance(a, Ref):
+        sl, ss, sn = _as_list_ref(ex, a)
+        fa = sl[ss:ss + sn]
+    while isinstance(b, Ref) and b.rng is None:
+        nb = ex.load(b)
+        if isinstance(nb, Ref):
+            b = nb
+        else:
+            b = nb
+            break
+    if isinstance(b, Ref):
+        sl, ss, sn = _as_list_ref(ex, b)
+        fb = sl[ss:ss + sn]
+    else:
+        fb = b.f
+    if len(fa) != len(fb):
+        r = Sc(False, "bool")
+    else:
+        r = Sc(True, "bool")
+        for x, y in zip(fa, fb):
+            r = ex.binop("BitAnd", r, ex.binop("Eq", x, y))
+    return ex.unop("Not", r) if callee.endswith("::ne") else r
+
+
+def _vec_insert(ex, callee, argv):
+    v = ex.load(argv[0])
+    i = argv[1]
+    if not i.conc():
+        raise Unsupported("Vec::insert at symbolic index")
+    v.f.insert(i.v, argv[2])
+    return UNIT
+
+
+def _f64_ceil(ex, callee, argv):
+    import math
+    a = argv[0]
+    if not a.conc():
+        raise Unsupported("symbolic float")
+    return Sc(float(math.ceil(a.v)), "f64")
+
+
+def _vec_append(ex, callee, argv):
+    v = ex.load(argv[0])
+    o = ex.load(argv[1])
+    v.f.extend(o.f)
+    o.f[:] = []
+    return UNIT
+
+
+def _vec_resize(ex, callee, argv):
+    v = ex.load(argv[0])
+    n = argv[1]
+    if not n.conc():
+        raise Unsupported("Vec::resize to symbolic length")
+    if n.v <= len(v.f):
+        del v.f[n.v:]
+    else:
+        v.f.extend(deep(argv[2]) for _ in range(n.v - len(v.f)))
+    return UNIT
+
+
+def _vec_with_capacity(ex, callee, argv):
+    return Agg([], name="Vec")
+
+
+def _array_to_vec_boxed(ex, callee, argv):
+    raise Unsupported(callee)
+
+
 TABLE = [
+    (re.compile(r"^<(Result|Option)<.*> as Try>::branch$"), _try_branch),
+    (re.compile(r"^<(Result|Option)<.*> as FromResidual<.*>>::from_residual$"), _from_residual),
+    (re.compile(r"^<&(mut )?(Vec<.*>|\[.*\]) as IntoIterator>::into_iter$"), _ref_into_iter),
+    (re.compile(r"^<&+\w+ as PartialEq>::(eq|ne)$"), _scalar_ref_cmp),
+    (re.compile(r"^<\[\w+; \d+\] as PartialEq<&?\[\w+\]>>::(eq|ne)$"), _arr_slice_cmp),
+    (re.compile(r"^<(Vec<\w+>|\[\w+\]|&\[\w+\]) as PartialEq<.*>>::(eq|ne)$"), _arr_slice_cmp),
+    (re.compile(r"^Vec::insert$"), _vec_insert),
+    (re.compile(r"^Vec::append$"), _vec_append),
+    (re.compile(r"^Vec::resize$"), _vec_resize),
+    (re.compile(r"^Vec::with_capacity$"), _vec_with_capacity),
+    (re.compile(r"^((std|core)::)?f64::<impl f64>::ceil$"), _f64_ceil),
     (re.compile(r"^<&(mut )?\[\w+\] as TryInto<&?\[\w+; \d+\]>>::try_into$"), _try_into_array),
     (re.compile(r"^core::num::<impl \w+>::\w+$"), _int_method),
     (re.compile(r"^<\w+ as From<\w+>>::from$"), _from),
